@@ -127,7 +127,7 @@ META = dict(
                "prettyprinter.go byte for byte; Go's own parse-print-parse / evaluate round trip on generated programs"),
     level_text=("Proof: for operator trees of ANY depth over the real table, outside the known class mul-right-brackets, the "
                 "printer's local bracket rule yields admissible parentheses and the Pratt parser reads the printed tokens back "
-                "to the same tree — also on the REAL parser model Ecal.Parse.run with the bracket rule extracted from the Go source (print_parse_expr_real_parser_partial; number atoms, no return operands) — hence idempotence there; lex(quote v)=v with allowEscapes=true for EVERY byte string on the real printer "
+                "to the same tree — also on the REAL parser model Ecal.Parse.run with the bracket rule extracted from the Go source (print_parse_expr_real_parser_partial; number and identifier atoms, no return operands) — hence idempotence there; lex(quote v)=v with allowEscapes=true for EVERY byte string on the real printer "
                 "and lexer models (Ecal.Print.quoteWith ip / Ecal.Lex.lexValue, for every printability predicate ip that is false on the newline); bracket rule of return <value>; kind preserved for non-raw "
                 "literals; negative witnesses for the two known classes. Statements, comments, blank lines: differential test "
                 "only (text identical to the model printer; Go round trip)."),
